@@ -4,7 +4,7 @@ Bounded-exhaustive enumeration of structure trees: program units (module,
 submodule, program, external subroutine/function) containing derived types (with
 components and bindings), named generic interfaces, abstract interfaces with
 bodies, module / internal procedures (CONTAINS nesting) and executable constructs
-(BLOCK, DO plain / named / labelled, IF, SELECT CASE, ASSOCIATE, WHERE, nested), up
+(BLOCK, DO plain / named / labelled, IF, SELECT CASE, SELECT TYPE, ASSOCIATE, WHERE, nested), up
 to a node budget, each rendered with 5 END forms x 3 spacing styles.  The renderer
 knows the line of every opening and END statement (source map), which gives the
 expected outline; workspace/symbol is asked for every substring (length <= 3) of
@@ -26,7 +26,7 @@ K_MODULE, K_CLASS, K_METHOD, K_FUNCTION, K_VARIABLE, K_INTERFACE = 2, 5, 6, 12, 
 # ------------------------------------------------------------------ tree model
 # node = (kind, [children]);  kinds:
 UNITS = ("MOD", "PROG", "ESUB", "EFUN", "SMOD")
-CONSTRUCTS = ("BLOCK", "DO", "NDO", "LDO", "IF", "SELC", "ASSOC", "WHERE")
+CONSTRUCTS = ("BLOCK", "DO", "NDO", "LDO", "IF", "SELC", "SELT", "ASSOC", "WHERE")
 
 
 def gen_constructs(budget, depth):
@@ -205,6 +205,16 @@ def render_constructs(r: R, depth, nodes):
             r.add(depth, "case default")
             r.add(depth + 1, "k = 4")
             r.end(depth, "select", None, need_kw=True)
+        elif kind == "SELT":
+            # CLASS DEFAULT need not be the last guard
+            r.add(depth, "select type (poly)")
+            r.add(depth, "type is (integer)")
+            r.add(depth + 1, "k = 6")
+            r.add(depth, "class default")
+            r.add(depth + 1, "k = 7")
+            r.add(depth, "type is (real)")
+            r.add(depth + 1, "k = 8")
+            r.end(depth, "select", None, need_kw=True)
         elif kind == "ASSOC":
             r.add(depth, "associate (z => k)")
             r.add(depth + 1, "z = 5")
@@ -224,6 +234,7 @@ def render_proc(r: R, depth, kind, ch, container, listed, mod_prefix=""):
     s = r.add(depth, head)
     r.add(depth + 1, "integer :: x, i, k")
     r.add(depth + 1, "integer :: arr(3)")
+    r.add(depth + 1, "class(*), allocatable :: poly")
     if fun:
         r.add(depth + 1, "integer :: res")
     r.add(depth + 1, "k = x")
@@ -324,6 +335,7 @@ def render_unit(r: R, unit, modules):
         r.add(1, "implicit none")
         r.add(1, "integer :: i, k")
         r.add(1, "integer :: arr(3)")
+        r.add(1, "class(*), allocatable :: poly")
         r.add(1, "k = 0")
         r.add(1, "arr = 0")
         render_constructs(r, 1, [c for c in ch if c[0] in CONSTRUCTS])
